@@ -90,6 +90,9 @@ def run_file_bytes(data, subcmd=("check",), profile="debug", timeout=20, extra_a
         os.unlink(path)
 
 
+MIN_TIMEOUT = float(os.environ.get("VERIF_NATIVE_MIN_TIMEOUT", "45"))
+
+
 class JsonSession:
     """A `garden json` child.  request() sends one framed request and returns
     (final_response_or_None, printed_text, all_raw_lines)."""
@@ -102,7 +105,7 @@ class JsonSession:
         self.p = subprocess.Popen([g, "json"], stdin=subprocess.PIPE, stdout=subprocess.PIPE,
                                   stderr=subprocess.PIPE, env=env)
         self.buf = b""
-        self.ready = self._read_response(10)
+        self.ready = self._read_response(MIN_TIMEOUT + 15)
 
     def _read_line(self, timeout):
         end = time.time() + timeout
@@ -155,7 +158,9 @@ class JsonSession:
         obj.update(extra)
         if not self.send(obj):
             return None, "", []
-        return self._read_response(timeout)
+        # a response that is merely late (loaded machine) must never read as "no response": every answer after it
+        # would be attributed to the wrong request.  A dead evaluation thread costs the full wait, once.
+        return self._read_response(max(timeout, MIN_TIMEOUT))
 
     def alive(self):
         return self.p.poll() is None
